@@ -386,6 +386,12 @@ func refWalk(v *rv, steps []pstep) (*rv, error) {
 					return nil, errRef
 				}
 			}
+			if (cur == nil || cur.kind == "nil") && st.call {
+				// calling something that is not there: the property fixes neither "empty" (a nil
+				// on the way) nor "error" (a wrong call); pongo2 answers empty for a missing key
+				// and an error for a key that holds nil - outside the reference
+				return nil, nil
+			}
 			if cur == nil || cur.kind == "nil" {
 				return rvEmpty, nil
 			}
